@@ -79,19 +79,64 @@ pub trait PathSyntax {
         }
     }
 
-    fn read_number(&mut self) -> Result<f32> {
-        self.check_not_end()?;
-        let mut s = String::new();
+    /// Read a run of ASCII digits into `s`
+    fn read_digits(&mut self, s: &mut String) {
         while let Some(ch) = self.current() {
-            if ch.is_ascii_digit() || ch == '.' || ch == '-' {
+            if ch.is_ascii_digit() {
                 s.push(ch);
                 self.advance();
             } else {
                 break;
             }
         }
+    }
+
+    /// Read a single number as defined by the SVG path grammar:
+    /// `sign? (digits ['.' digits?] | '.' digits) [('e'|'E') sign? digits]`
+    ///
+    /// Numbers need no separator where the next one starts with a sign or
+    /// a (second) decimal point, so "10-20" and "1.5.5" are both two numbers.
+    fn read_number(&mut self) -> Result<f32> {
+        self.check_not_end()?;
+        let mut s = String::new();
+        if let Some(ch @ ('+' | '-')) = self.current() {
+            s.push(ch);
+            self.advance();
+        }
+        self.read_digits(&mut s);
+        if let Some('.') = self.current() {
+            s.push('.');
+            self.advance();
+            self.read_digits(&mut s);
+        }
+        if s.chars().any(|ch| ch.is_ascii_digit()) {
+            if let Some(ch @ ('e' | 'E')) = self.current() {
+                // no path command uses 'e', so this must be an exponent
+                s.push(ch);
+                self.advance();
+                if let Some(ch @ ('+' | '-')) = self.current() {
+                    s.push(ch);
+                    self.advance();
+                }
+                self.read_digits(&mut s);
+            }
+        }
         self.skip_wsp_comma();
         Ok(s.parse()?)
+    }
+
+    /// Read a single-character arc flag; these don't need to be separated
+    /// from the following value ("a5 5 0 013 3").
+    fn read_flag(&mut self) -> Result<f32> {
+        self.check_not_end()?;
+        let flag = match self.current() {
+            Some('0') => 0.,
+            Some('1') => 1.,
+            _ => return Err(SvgdxError::ParseError("Invalid arc flag".to_string())),
+        };
+        self.advance();
+        self.skip_wsp_comma();
+        Ok(flag)
     }
 
     fn read_coord(&mut self) -> Result<(f32, f32)> {
@@ -240,8 +285,8 @@ impl PathParser {
                 // "(rx ry x-axis-rotation large-arc-flag sweep-flag x y)+"
                 let _rxy = self.tokens.read_coord()?;
                 let _xar = self.tokens.read_number()?;
-                let _laf = self.tokens.read_number()?;
-                let _sf = self.tokens.read_number()?;
+                let _laf = self.tokens.read_flag()?;
+                let _sf = self.tokens.read_flag()?;
                 let xy = self.tokens.read_coord()?;
                 self.update_position(xy);
             }
@@ -249,8 +294,8 @@ impl PathParser {
                 // "(rx ry x-axis-rotation large-arc-flag sweep-flag x y)+"
                 let _rxy = self.tokens.read_coord()?;
                 let _xar = self.tokens.read_number()?;
-                let _laf = self.tokens.read_number()?;
-                let _sf = self.tokens.read_number()?;
+                let _laf = self.tokens.read_flag()?;
+                let _sf = self.tokens.read_flag()?;
                 let (dx, dy) = self.tokens.read_coord()?;
                 let (cpx, cpy) = self.position.unwrap_or((0., 0.));
                 self.update_position((cpx + dx, cpy + dy));
